@@ -13,7 +13,7 @@ ID = "C10"
 LEVEL = "model_checking"
 RULE = ("full product kind x required x nullability notation (none, 3.0 nullable, 3.1 type list, oneOf/anyOf null member, null enum "
         "member) x default (absent/present) x position (model property, body property via an endpoint, query, header, cookie, "
-        "path); every position also with the parameter shared through a path item (3 operations) or a reusable parameter (3 uses); optional model properties also as parent / sibling of a child that re-states them more strictly (2 orders); present state exercised with every sample incl. falsy members and values; thorough: the holder model as JSON body and response of an operation; non-trivial = the class/function was generated and its three states were exercised; kinds include one-member unions (single-entry type list, anyOf / oneOf of one), falsy enum members, a second inline enum resolving to an existing class, typed + allOf-composed nullable objects; decoding twice from one mapping must agree and leave the mapping as it was; None for a nullable parameter is never transmitted like a value")
+        "path); every position also with the parameter shared through a path item (3 operations) or a reusable parameter (3 uses); optional model properties also as parent / sibling of a child that re-states them more strictly (2 orders); present state exercised with every sample incl. falsy members and values; thorough: the holder model as JSON body and response of an operation; non-trivial = the class/function was generated and its three states were exercised; kinds include one-member unions (single-entry type list, anyOf / oneOf of one), falsy enum members, a second inline enum resolving to an existing class, typed + allOf-composed nullable objects; decoding twice from one mapping must agree and leave the mapping as it was; None for a nullable parameter is never transmitted like a value; a JSON request body that is falsy in Python ([], {}, 0, false, "") is transmitted as that value, alone and next to a second media type")
 FLOOR = 0.5
 ASSUMPTIONS = ["nullable iff nullable:true on a typed non-enum schema, 'null' in a type list, a null oneOf/anyOf member, or null among enum values (DESIGN §2.4)"]
 
@@ -78,6 +78,7 @@ def _schema(full, comps):
 
 
 def cases(tier):
+    yield from _whole_body_cases()
     for kind in KINDS:
         ks = K.kstr(kind)
         for notation in _notations(kind):
@@ -441,7 +442,79 @@ def _endpoint(p, res, sb):
     return uniq
 
 
+# the request body as a whole: present values that are falsy in Python are still PRESENT on the wire
+WHOLE_BODIES = {
+    "array_int": ({"type": "array", "items": {"type": "integer"}}, [[], [0], [1, 2]]),
+    "array_model": ({"type": "array", "items": {"type": "object", "properties": {"z": {"type": "integer"}}}}, [[], [{}], [{"z": 0}]]),
+    "object_all_optional": ({"type": "object", "properties": {"note": {"type": "string"}, "n": {"type": ["integer", "null"]}}}, [{}, {"note": ""}, {"n": None}, {"note": "x", "n": 0}]),
+    "int": ({"type": "integer"}, [0, 7]), "num": ({"type": "number"}, [0.0, 1.5]), "bool": ({"type": "boolean"}, [False, True]), "str": ({"type": "string"}, ["", "s"]),
+    "nullable_str": ({"type": ["string", "null"]}, ["", "s"]),
+}
+
+
+def _whole_body_cases():
+    for name in WHOLE_BODIES:
+        for media in ("application/json", "application/vnd.x+json"):
+            for others in ("alone", "next-to-text"):
+                yield {"labels": [f"whole-body={name}", f"media={media}", others], "payload": {"pos": "whole-body", "body": name, "media": media, "others": others}}
+
+
+def _run_whole_body(p):
+    import json
+
+    import httpx
+    sch, values = WHOLE_BODIES[p["body"]]
+    content = {p["media"]: {"schema": copy.deepcopy(sch)}}
+    if p["others"] == "next-to-text":
+        content["application/octet-stream"] = {"schema": {"type": "string", "format": "binary"}}
+    doc = gen.base_doc(None, paths={"/b": {"post": {"operationId": "sendB", "requestBody": {"required": True, "content": content}, "responses": {"204": {"description": "n"}}}}})
+    res = gen.generate(doc)
+    if res.crash:
+        return {"skipped_crash": True, "outcome": f"crash:{res.crash['type']}", "nontrivial": False}
+    if res.rejected or not res.endpoints:
+        return {"outcome": "rejected", "nontrivial": False}
+    key = f"whole-body/{p['body']}" + ("/multi" if p["others"] != "alone" else "")
+    viol = []
+    with Sandbox(res.pkg_tree()) as sb:
+        try:
+            mod = wire.endpoint_module(sb, res.endpoints[0])
+        except Exception as exc:  # noqa: BLE001
+            return {"outcome": f"import-fails:{type(exc).__name__}", "nontrivial": False}
+        ann = pyval.hints(mod.sync_detailed).get("body", typing.Any)
+        for v in values:
+            try:
+                arg = pyval.pythonize(ann, copy.deepcopy(v))
+            except pyval.NoFit:
+                continue
+            for variant in ("sync_detailed", "asyncio_detailed"):
+                cap = wire.Capture(lambda request: httpx.Response(204))
+                r = wire.call(mod, variant, lambda: wire.make_client(sb, cap), cap, {"body": arg})      # noqa: B023
+                if r is None or not r["ok"] or not r["requests"]:
+                    continue
+                q = r["requests"][0]
+                falsy = "/falsy" if v in ([], {}, 0, 0.0, False, "") else ""
+                try:
+                    sent = json.loads(q["content"]) if q["content"] else "<nothing>"
+                except ValueError:
+                    sent = f"<not JSON: {q['content'][:40]!r}>"
+                if sent == "<nothing>" or not K.json_eq(sent, v) or type(sent) is not type(v) and not (isinstance(sent, (int, float)) and isinstance(v, (int, float)) and not isinstance(v, bool) and not isinstance(sent, bool)):
+                    viol.append({"oracle": "body-present-wire", "site": variant.split("_")[0], "key": key + falsy,
+                                 "detail": f"{variant}: body {v!r} was passed, the request carried {sent!r} (Content-Type {q['content_type']!r})"})
+                elif (q["content_type"] or "").split(";")[0].strip() != p["media"]:
+                    viol.append({"oracle": "body-present-wire", "site": variant.split("_")[0], "key": key + "/content-type" + falsy,
+                                 "detail": f"{variant}: body {v!r}: Content-Type {q['content_type']!r}, declared {p['media']!r}"})
+    seen, uniq = set(), []
+    for x in viol:
+        kk = (x["oracle"], x["site"], x["key"])
+        if kk not in seen:
+            seen.add(kk)
+            uniq.append(x)
+    return {"violations": uniq, "outcome": "ok" if not uniq else "viol:body-present-wire", "nontrivial": True, "steps": 2 * len(values)}
+
+
 def run_case(p):
+    if p.get("pos") == "whole-body":
+        return _run_whole_body(p)
     res = gen.generate(p["doc"])
     if res.crash:
         return {"skipped_crash": True, "outcome": f"crash:{res.crash['type']}", "nontrivial": False}
